@@ -6,3 +6,24 @@ require (
 	golang.org/x/tools v0.29.0
 	sigs.k8s.io/yaml v1.4.0
 )
+
+require (
+	github.com/davecgh/go-spew v1.1.1 // indirect
+	github.com/go-errors/errors v1.4.2 // indirect
+	github.com/go-openapi/jsonpointer v0.21.0 // indirect
+	github.com/go-openapi/jsonreference v0.20.2 // indirect
+	github.com/go-openapi/swag v0.23.0 // indirect
+	github.com/google/gnostic-models v0.6.9 // indirect
+	github.com/josharian/intern v1.0.0 // indirect
+	github.com/mailru/easyjson v0.7.7 // indirect
+	golang.org/x/mod v0.22.0 // indirect
+	golang.org/x/sync v0.10.0 // indirect
+	google.golang.org/protobuf v1.36.1 // indirect
+	gopkg.in/yaml.v3 v3.0.1 // indirect
+	k8s.io/kube-openapi v0.0.0-20241212222426-2c72e554b1e7 // indirect
+)
+
+// WalkTables.v reads the builtin OpenAPI schema (a protobuf asset) through kyaml's own loader
+require sigs.k8s.io/kustomize/kyaml v0.19.0
+
+replace sigs.k8s.io/kustomize/kyaml => /repo/kyaml
